@@ -59,6 +59,7 @@ def _rel(ctx, target, d, k, tag, subject_override=None, light=False):
     else:
         identified = ctx.bool(tag + "identified")
     args = []
+    last_opt = False
     may_qualify = identified or k not in BARE_WHEN_ANON
     all_opts = ctx.bool(tag + "opts") if (light and may_qualify and len(fa) > 2) else False
     for i, a in enumerate(fa):
@@ -73,7 +74,14 @@ def _rel(ctx, target, d, k, tag, subject_override=None, light=False):
             else:
                 args.append(pool[ctx.choose(tag + "arg%d" % i, len(pool))])
         else:
-            present = (all_opts if light else ctx.bool(tag + "opt%d" % i)) if may_qualify else False
+            if light:
+                present = all_opts
+            elif i <= 3:
+                present = ctx.bool(tag + "opt%d" % i)
+            else:
+                present = last_opt   # derivation: generation and usage are present / absent together
+            present = present if may_qualify else False
+            last_opt = present
             args.append(pool[0] if present else None)
     extra = None
     if identified or k not in BARE_WHEN_ANON:
